@@ -64,6 +64,21 @@ func (s *Service) HandleHeadEvent(event *apiv1.Event) {
 	s.updateBlockVotes(ctx, block)
 }
 
+// blockRoot calculates the root of a block.
+// The block is whatever the beacon node sent, as decoded by the client library.  The library's
+// decoders accept null members that its hashing code dereferences, so a failure there is reported
+// as an error rather than being allowed to bring down the process.
+func blockRoot(block *spec.VersionedSignedBeaconBlock) (root phase0.Root, err error) {
+	defer func() {
+		if r := recover(); r != nil {
+			root = phase0.Root{}
+			err = fmt.Errorf("malformed block: %v", r)
+		}
+	}()
+
+	return block.Root()
+}
+
 // updateBlockVotes updates the votes made in attestations for this block.
 func (s *Service) updateBlockVotes(_ context.Context,
 	block *spec.VersionedSignedBeaconBlock,
@@ -85,6 +100,10 @@ func (s *Service) updateBlockVotes(_ context.Context,
 
 	votes := make(map[phase0.Slot]map[phase0.CommitteeIndex]bitfield.Bitlist)
 	for _, attestation := range attestations {
+		if attestation == nil || attestation.Data == nil {
+			// The block decoders admit null entries; there is nothing to count for them.
+			continue
+		}
 		data := attestation.Data
 		_, exists := votes[data.Slot]
 		if !exists {
@@ -107,7 +126,7 @@ func (s *Service) updateBlockVotes(_ context.Context,
 		return
 	}
 
-	root, err := block.Root()
+	root, err := blockRoot(block)
 	if err != nil {
 		s.log.Error().Err(err).Msg("Failed to obtain proposed block's root")
 		return
